@@ -280,6 +280,18 @@ Section Spectral.
     rewrite <- sumn_mul_l. reflexivity.
   Qed.
 
+  Lemma lltsa_rhs_rotate n D R X a a' :
+    lltsa_rhs n (rotate D R X) a a' = conj_R D R (lltsa_rhs n X) a a'.
+  Proof.
+    unfold lltsa_rhs. rewrite npe_rhs_rotate.
+    assert (Hs : forall b, feat_sum n (rotate D R X) b = rot_vec D R (feat_sum n X) b).
+    { intros b. unfold feat_sum, rotate, rot_vec. rewrite sumn_swap. apply sumn_ext. intros c _.
+      rewrite sumn_mul_l. reflexivity. }
+    rewrite !Hs.
+    rewrite (conj_R_sub D R (npe_rhs n X) (fun b c => feat_sum n X b * feat_sum n X c / of_nat n)).
+    f_equal. rewrite conj_R_div, conj_R_outer. reflexivity.
+  Qed.
+
   (* generalised answers of (A,B) are carried to answers of (R A R^T, R B R^T) *)
   Theorem geig_answer_rotate D d R A B A' B' P lam :
     orthogonal D R -> meq D D A' (conj_R D R A) -> meq D D B' (conj_R D R B) ->
